@@ -388,6 +388,8 @@ impl RaftStorage<ClientRequest, ClientResponse> for FileStore {
                     .read(true)
                     .write(true)
                     .create(true)
+                    // the id (and so the path) of an interrupted earlier install is reused: drop its content
+                    .truncate(true)
                     .open(path.as_str())
                     .await?;
                 Ok((snapshot_id.to_string(), Box::new(file)))
